@@ -346,6 +346,11 @@ def b_native(B):
         else:
             ref[ns] = res
         B.case(("e2e", ns, chunk, jobs), not other, detail=other[:4], inputs={"kind": "e2e", "ns": ns, "chunk": chunk, "jobs": jobs})
+    # every unit at or above max_wf (no zero padding in the index table)
+    for ns, chunk, jobs in runs[:2]:
+        bad, res = native_e2e(np.random.default_rng(B.seed + 5), ns, chunk, jobs, sizes=[24, 19, 40], max_wf=16, seed=3)
+        other = [x for x in bad if not (x[0] == "count" and x[-1] == "first_valid_index_selected")]
+        B.case(("e2e_all_units_full", ns, chunk, jobs), not other, detail=other[:4], inputs={"kind": "e2e_full", "ns": ns, "chunk": chunk})
     # F-C13-1: spike index 0 valid and selected is dropped
     d = tempfile.mkdtemp(prefix="c13_")
     try:
